@@ -171,8 +171,42 @@ def make_storage_workload(seed):
     return "\n".join(lines) + "\n", {}, {"shape": "storages", "threads": nthreads, "kind": "storage"}
 
 
+def make_overwrite_workload(seed):
+    """writers overwrite a few keys with values of very different lengths while readers get / scan
+    them: a reader must see one put's complete (bytes, length) pair"""
+    r = random.Random("overwrite/%d" % seed)
+    shape = r.choice(["single", "full", "two_level", "layers"])
+    keys = shape_keys(r, shape)
+    lines = ["storage 61", "bg 0"]
+    pre = {}
+    for k in keys:
+        v = b"p" + k[-3:]
+        lines.append("pre put %s %s" % (hx(k), hx(v)))
+        pre[k] = v.hex()
+    live = sorted(pre)
+    hot = r.sample(live, min(len(live), r.choice([1, 2])))
+    lens = [1, 2, 8, 9, 40, 200, 1000]
+    nthreads = r.choice([2, 3, 4])
+    for t in range(nthreads):
+        lines.append("thread %d" % t)
+        writer = t % 2 == 0
+        for i in range(r.choice([2, 3, 4])):
+            k = r.choice(hot)
+            if writer:
+                ln = r.choice(lens)
+                val = (b"%d.%d:" % (t, i) + bytes([0x41 + (t * 7 + i) % 26]) * ln)[:max(ln, 4)]
+                lines.append("op put %s %s 0" % (hx(k), hx(val)))
+            elif r.random() < 0.7:
+                lines.append("op get %s" % hx(k))
+            else:
+                lines.append("op scan %s I %s I 0 0" % (hx(k), hx(k)))
+    return "\n".join(lines) + "\n", pre, {"shape": shape, "threads": nthreads, "kind": "overwrite"}
+
+
 def make_workload(seed, kind, shape=None):
     """returns (text, pre dict, meta)"""
+    if kind == "overwrite":
+        return make_overwrite_workload(seed)
     if kind == "storage":
         return make_storage_workload(seed)
     if kind == "reuse":
